@@ -38,8 +38,8 @@ theorem lower_eq_const (c k : Nat) (hk : ¬ (65 ≤ k ∧ k ≤ 90)) (hk2 : ¬ (
 theorem isSpace_lower (c : Nat) : isSpace (lower c) = isSpace c := by
   unfold isSpace
   rw [lower_eq_const c 32 (by omega) (by omega), lower_eq_const c 9 (by omega) (by omega),
-    lower_eq_const c 10 (by omega) (by omega), lower_eq_const c 12 (by omega) (by omega),
-    lower_eq_const c 13 (by omega) (by omega)]
+    lower_eq_const c 10 (by omega) (by omega), lower_eq_const c 11 (by omega) (by omega),
+    lower_eq_const c 12 (by omega) (by omega), lower_eq_const c 13 (by omega) (by omega)]
 
 theorem isWordByte_lower (c : Nat) : isWordByte (lower c) = isWordByte c := by
   unfold isWordByte lower
